@@ -285,8 +285,15 @@ class extract_visitor(NodeVisitor):
 
     visit_Try = visit_TryExcept
 
+    def visit_type_params(self, node):
+        # type: (ast.FunctionDef | ast.ClassDef) -> None
+        # def f[T: bound](): ..., class C[T: bound]: the bounds are expressions
+        for tp in getattr(node, 'type_params', ()):
+            self.generic_visit(tp)
+
     def visit_FunctionDef(self, node):
         # type: (ast.FunctionDef) -> None
+        self.visit_type_params(node)
         for d in node.decorator_list:
             self.visit(d)
 
@@ -333,6 +340,7 @@ class extract_visitor(NodeVisitor):
 
     def visit_ClassDef(self, node):
         # type: (ast.ClassDef) -> None
+        self.visit_type_params(node)
         for d in node.decorator_list:
             self.visit(d)
         for b in node.bases:
